@@ -78,6 +78,12 @@ class C15(Prop):
         fam = t.weighted([(5, "limits"), (1, "defaults"), (4, "buffering")])
         if fam == "limits":
             form = mpm.gen_form(t, max_parts=5, file_bias=1)
+            if t.draw(4) == 0:
+                # names with quoted pairs are legal (C01's statement excludes them, C15's does not): the part kind -
+                # and with it what counts against the field limit - must not depend on them
+                for p in form["parts"]:
+                    if t.draw(2):
+                        p["name"] = t.choice(['photo (10" print)', 'a"b', 'q"', '"', 'two "quoted" words', 'back\\slash"x'])
             nparts = len(form["parts"])
             fb = sum(len(p["content"]) for p in form["parts"] if p["kind"] == "field")
             mp = t.choice(["default", nparts - 1, nparts, nparts + 1])
